@@ -699,6 +699,7 @@ int disasm_msp430(
       {
         case OP_NONE:
           strcpy(instruction, table_msp430[n].instr);
+          count += 2;
           break;
         case OP_ONE_OPERAND:
         case OP_ONE_OPERAND_W:
@@ -887,7 +888,12 @@ int disasm_msp430(
     n++;
   }
 
-  if (table_msp430[n].instr == NULL) { strcpy(instruction, "???"); }
+  if (table_msp430[n].instr == NULL)
+  {
+    // The word that matched nothing was read: it belongs to the length.
+    strcpy(instruction, "???");
+    count += 2;
+  }
 
   if (prefix != 0xffff)
   {
